@@ -236,7 +236,7 @@ class SimFile:
         return len(b)
 
     def getvalue(self):
-        return bytes(self.buf if self.mode == "w" else self.data)
+        return bytes(self.buf if self.mode in ("w", "rw") else self.data)
 
     def flush(self):
         pass
@@ -341,6 +341,38 @@ class _IoShim:
         return getattr(io, name)
 
 
+def _unified_bytesio(*a, **kw):
+    return _sim_bytesio(*a, **kw) if a else _sim_scratch_bytesio(*a, **kw)
+
+
+_patched_names = []
+
+
+def _discover_seams():
+    """Every module of the library that holds a reference to io.BytesIO (under any name) or to
+    the io module gets the simulator's factory instead: the seam follows the code if a
+    refactoring moves the nested loads elsewhere."""
+    import sys
+
+    for modname, mod in list(sys.modules.items()):
+        if mod is None or not (modname == "rv" or modname.startswith("rv.")):
+            continue
+        for name, val in list(vars(mod).items()):
+            if val is _real_bytesio:
+                setattr(mod, name, _unified_bytesio)
+                _patched_names.append((mod, name, val))
+            elif val is io and not isinstance(val, _IoShim):
+                setattr(mod, name, _IoShimUnified())
+                _patched_names.append((mod, name, val))
+
+
+class _IoShimUnified:
+    def __getattr__(self, name):
+        if name == "BytesIO":
+            return _unified_bytesio
+        return getattr(io, name)
+
+
 def install():
     """Idempotent; pass-through unless a Ctx is active."""
     pathlib.Path.open = _sim_path_open
@@ -353,6 +385,7 @@ def install():
 
     _ct.BytesIO = _sim_scratch_bytesio
     _mod.io = _IoShim()
+    _discover_seams()
 
 
 def uninstall():
@@ -366,6 +399,9 @@ def uninstall():
 
     _ct.BytesIO = _real_bytesio
     _mod.io = io
+    while _patched_names:
+        mod, name, val = _patched_names.pop()
+        setattr(mod, name, val)
 
 
 class active:
